@@ -1122,6 +1122,58 @@ pub fn run(c: &mut Ctx) {
         }
     }
 
+    // ---- from_local_datetime / with_ymd_and_hms exactly ON the boundary, for EVERY offset (audit 2026-09-30) ------
+    // wall clock = MIN_UTC + off + d resp. MAX_UTC + off + d seconds, d in {-1, 0, 1}: the UTC reading is one second
+    // outside / exactly on / one second inside the range end
+    {
+        let edge_local = |hi_end: bool, off: i32, d: i32| -> Option<(NaiveDate, u32)> {
+            if hi_end {
+                let sod = 86_399 + off + d;
+                if sod >= 86_400 { None } else if sod < 0 { Some((NaiveDate::MAX.pred_opt().unwrap(), (sod + 86_400) as u32)) } else { Some((NaiveDate::MAX, sod as u32)) }
+            } else {
+                let sod = off + d;
+                if sod < 0 { None } else if sod >= 86_400 { Some((NaiveDate::MIN.succ_opt().unwrap(), (sod - 86_400) as u32)) } else { Some((NaiveDate::MIN, sod as u32)) }
+            }
+        };
+        let mut lo = -86_399i32;
+        while lo <= 86_399 {
+            let hi = (lo + 999).min(86_399);
+            let mut h = (1i64, 1i64);
+            for off in lo..=hi {
+                let mut obs: Vec<i64> = vec![];
+                for hi_end in [false, true] {
+                    for d in [-1, 0, 1] {
+                        let Some((date, sod)) = edge_local(hi_end, off, d) else { obs.push(-2); continue };
+                        for frac in [0u32, 1_000_000_000] {
+                            let l = mk_n(date, sod, frac);
+                            let r = guard(|| lr(fo(off).from_local_datetime(&l)).map_err(|_| ())).and_then(|x| x);
+                            check_from_local(c, &mut fl, &mut tl, &l, off, &r);
+                            obs.extend(fl_list(off, &l));
+                            // the exact expectation at the boundary: inside iff d points inwards (or is 0)
+                            let inside = if hi_end { d <= 0 } else { d >= 0 };
+                            if matches!(r, Ok(Some(_))) != inside {
+                                fl.hit(c, "from_local_datetime at the range end must fail exactly when the UTC reading is outside", &format!("zn.fl {} {off}", enc_n(&l)));
+                            }
+                        }
+                        let (y, m, dd) = (date.year(), date.month(), date.day());
+                        let r = guard(|| lr(fo(off).with_ymd_and_hms(y, m, dd, sod / 3600, sod / 60 % 60, sod % 60)).map_err(|_| ())).and_then(|x| x);
+                        let key = format!("zn.ymd {off} {y} {m} {dd} {} {} {}", sod / 3600, sod / 60 % 60, sod % 60);
+                        check_wall_result(c, &mut fl, &mut tl, "with_ymd_and_hms(boundary)", &key, off, Some((day_num(y as i64, m as i64, dd as i64), sod as i64, 0)), false, false, &r);
+                        match &r {
+                            Ok(Some(z)) => { let (yy, s, f) = raw_n(&z.naive_utc()); obs.extend([1, yy, s, f]); }
+                            Ok(None) => obs.push(0),
+                            Err(()) => obs.push(-1),
+                        }
+                    }
+                }
+                h = mix_l(h, &obs);
+            }
+            c.op(&format!("znf.edge {lo} {hi}"), &format!("{} {}", h.0, h.1));
+            c.count_n("exhaustive:(range end, offset, delta) boundary wall clocks", ((hi - lo + 1) * 6) as u64);
+            lo = hi + 1;
+        }
+    }
+
     // ---- formatting, derived views, zone changes: headroom-directed + random (audit 2026-09-30) -----------------
     for k in 0..c.n(30_000, 200_000) {
         let (u, off) = if k % 2 == 0 {
